@@ -88,6 +88,22 @@ def getFile : List (Name × Bytes) → Name → Except Err Bytes
 def getAllDex (entries : List (Name × Bytes)) : List (Except Err Bytes) :=
   (dexNames (getFiles entries)).map (getFile entries)
 
+/-! ### the name-keyed dict apkInspector builds from the central directory
+`CentralDirectory.parse`: `central_directory_entries[entry.filename] = entry` for every file header in
+directory order (a Python dict: a repeated key keeps its first POSITION and takes the last VALUE);
+`ZipEntry.namelist()` lists its keys, `ZipEntry.read(name)` reads the member of the stored header
+(`KeyError` when the key is absent).  `entries` of the functions above is this dict as an association
+list with distinct keys; `dictOf` builds it from the headers (names may repeat). -/
+
+/-- Python `d[k] = v` on an insertion-ordered dict -/
+def dictSet : List (Name × Bytes) → Name → Bytes → List (Name × Bytes)
+  | [], k, v => [(k, v)]
+  | (m, b) :: rest, k, v => if m = k then (m, v) :: rest else (m, b) :: dictSet rest k v
+
+/-- the dict after inserting every header of the central directory in order -/
+def dictOf (cd : List (Name × Bytes)) : List (Name × Bytes) :=
+  cd.foldl (fun d e => dictSet d e.1 e.2) []
+
 /-! ### Specification of a DEX name (a statement, not executable)
 "all files in the root directory of the APK named `classes.dex` or `classes[0-9]+.dex`":
 the characters `classes`, zero or more ASCII digits, the characters `.dex`, nothing else. -/
